@@ -287,7 +287,7 @@ AssignAlphabet == <<
     Asg("t", "t", "t", "assign", TextV("tx")),
     Asg("v", "v", "vv", "assign", IntV(42)),
     Nul("w", "w"),
-    Nul("t", "t"),
+    Nul("v", "vv"),
     Asg("s__add", "s", "s", "plus", SetV({44})),
     Asg("s__remove", "s", "s", "minus", SetV({45})),
     Asg("s", "s", "s", "assign", SetV({46, 47})),
